@@ -37,7 +37,7 @@ def REQUIRED(tier):
 
 def _required(tier):
     return ["snapshots_taken", "snapshot_prefix_checks", "kill_children", "kill:died_at_point", "kill:survivor_opened", "truncations", "strace_runs", "strace_write_events",
-            "writers_covered", "snapshot:preexisting_output", "kill:preexisting_output", "snapshot:product_over_1MiB", "kill:unwound_by_exception", "strace:header_over_512_bytes_confirmed", "rewrites_of_an_opened_name", "rewrite:equal_length_products"]
+            "writers_covered", "snapshot:preexisting_output", "kill:preexisting_output", "snapshot:product_over_1MiB", "kill:unwound_by_exception", "strace:header_over_512_bytes_confirmed", "rewrites_of_an_opened_name", "rewrite:equal_length_products", "snapshot:product_ending_in_zero_blocks"]
 
 
 def EXHAUSTIVE(tier):
@@ -50,6 +50,8 @@ def cases(tier, seed):
         for g in gulps:
             yield {"kind": "snapshot", "writer": w, "gulp": g}
         yield {"kind": "snapshot", "writer": w, "gulp": 5, "pre": True}   # re-run over an existing, longer output of the same name
+    for w in c20_scen.ZERO_TAIL_WRITERS:
+        yield {"kind": "snapshot", "writer": w, "gulp": 512}
     for w in c20_scen.BIG_WRITERS:
         yield {"kind": "snapshot", "writer": w, "gulp": 65536}
         for k in (1, 3, 5):
@@ -170,6 +172,11 @@ def _snapshot(case, ctx):
             if len(snap) <= len(prev) and i > 0 and name == "cwrite" and len(snap) == len(prev):
                 ctx.count("writes_with_no_growth")
             prev = snap
+        if w in c20_scen.ZERO_TAIL_WRITERS:     # the product's size is known independently: header + every requested sample, zeros included
+            ctx.count("snapshot:product_ending_in_zero_blocks")
+            if len(final[p]) - hl != c20_scen.ZT_N * c20_scen.ZT_NCH:
+                ctx.violation(f"incomplete-at-return:{w}:short-file", f"{os.path.basename(p)}: {len(final[p]) - hl} data bytes on disk when the call returned, {c20_scen.ZT_N * c20_scen.ZT_NCH} requested (the product ends in all-zero blocks)", case)
+                return
         if prev != final[p]:
             ctx.violation(f"bytes-after-last-write:{w}", f"{os.path.basename(p)}: final file has {len(final[p])} bytes but the last observed write left {len(prev)}", case)
             return
